@@ -131,7 +131,8 @@ def wantOf (e : Env) (k : Nat) (tid : Nat) (o : String) (pack : List FuncValue) 
     | some st =>
       let kv : BitVec 64 := BitVec.ofNat 64 (0x8877665544332211 * (k + 1))
       let _ := e
-      [.int (widen (deabstract 8 tid) st kv)]
+      -- an explicit pointer for a by-reference parameter is passed as it is
+      if pack.any (·.isIndirect) then [.int kv] else [.int (widen (deabstract 8 tid) st kv)]
     | none => [.none]
   else if o.startsWith "v" then [.vtok k]
   else [.none]
@@ -175,6 +176,46 @@ def monStep (ws : List String) : String :=
             else "OK"
       | _, _, _, _ => "bad-op frame"
     | _ => "SKIP " ++ " ".intercalate ans       -- refused by the real code: nothing to judge
+  | _ => "bad-op"
+
+/-! ### host execution: `monivx <ccid> <flags> <n> <tid>=<op>*n # ok <captured>*n` -/
+def vecPattern (k : Nat) (n : Nat) : String :=
+  String.ofList ((List.range n).flatMap fun j => let b := (17 * k + j + 1) % 256; [hexChar (b / 16), hexChar (b % 16)])
+
+def monIvx (ws : List String) : String :=
+  match ws with
+  | _ :: _ :: n :: rest =>
+    match n.toNat? with
+    | some n =>
+      let args := rest.take n
+      match rest.drop n with
+      | "#" :: "ok" :: caps =>
+        if caps.length != n then "bad-op caps" else
+        let bad := (List.range n).filter fun k =>
+          match (args.getD k "").splitOn "=" with
+          | [t, o] =>
+            (match t.toNat? with
+             | some tid =>
+               let sz := tySize tid
+               let cap := caps.getD k ""
+               let body := (o.drop 1).toString
+               -- a vector in a register is captured through its xmm part (16 bytes)
+               if o.startsWith "v" then
+                 let nb := (cap.length - 1) / 2
+                 !(cap.startsWith "b" && nb ≥ min sz 16 && cap == "b" ++ vecPattern k nb)
+               else
+                 let want : Option (BitVec 64) :=
+                   if o.startsWith "i" then (parseHex? body).map (BitVec.ofNat 64)
+                   else body.toNat?.map fun st => widen tid st (BitVec.ofNat 64 (0x8877665544332211 * (k + 1)))
+                 (match want, (if cap.startsWith "g" then parseHex? (cap.drop 1).toString else none) with
+                  | some w, some c => lowBytes sz (BitVec.ofNat 64 c) != lowBytes sz w
+                  | _, _ => true)
+             | none => true)
+          | _ => true
+        if bad.isEmpty then "OK" else s!"BAD arg {bad.head!} received {caps.getD bad.head! "?"}"
+      | "#" :: other => "SKIP " ++ " ".intercalate other
+      | _ => "bad-op"
+    | none => "bad-op"
   | _ => "bad-op"
 
 end Driver.C06I
